@@ -163,6 +163,8 @@ class Evaluator:
                         return TOP
                 if isinstance(recv, list) and f.attr == "copy":
                     return list(recv)
+            if isinstance(f, ast.Name) and f.id in self.module.funcs and f.id not in self.env:
+                return self._call_builder(self.module.funcs[f.id], e)
             if isinstance(f, ast.Name) and f.id in ("dict", "list", "tuple", "set", "frozenset", "str", "len", "sorted") \
                     and f.id not in self.module.assigns and f.id not in self.module.funcs:
                 args = [self.eval(a) for a in e.args]
@@ -218,12 +220,177 @@ class Evaluator:
                 return v[k]
             except Exception:
                 return TOP
+        if isinstance(e, ast.Compare) and len(e.ops) == 1:
+            l, r = self.eval(e.left), self.eval(e.comparators[0])
+            if l is TOP or r is TOP:
+                return TOP
+            op = e.ops[0]
+            try:
+                if isinstance(op, ast.Is):
+                    return l is r if (l is None or r is None or isinstance(l, bool) or isinstance(r, bool)) else TOP
+                if isinstance(op, ast.IsNot):
+                    return l is not r if (l is None or r is None or isinstance(l, bool) or isinstance(r, bool)) else TOP
+                if isinstance(op, ast.Eq):
+                    return l == r
+                if isinstance(op, ast.NotEq):
+                    return l != r
+                if isinstance(op, ast.In):
+                    return l in r
+                if isinstance(op, ast.NotIn):
+                    return l not in r
+            except Exception:
+                return TOP
+            return TOP
+        if isinstance(e, ast.BoolOp):
+            res = None
+            for x in e.values:
+                res = self.eval(x)
+                if res is TOP:
+                    return TOP
+                if isinstance(e.op, ast.And) and not res:
+                    return res
+                if isinstance(e.op, ast.Or) and res:
+                    return res
+            return res
         if isinstance(e, ast.IfExp):
             t = self.eval(e.test)
             if t is TOP:
                 return TOP
             return self.eval(e.body if t else e.orelse)
         return TOP
+
+
+class _Return(Exception):
+    def __init__(self, value):
+        self.value = value
+
+
+class _Unknown(Exception):
+    pass
+
+
+def _call_builder(self, func, call, depth=0):
+    """Value of a call of a module-level function that only builds a value from its arguments (table constructors such as
+    `_tag("copy", ":copy", extension="copy")`): its statements are interpreted over constants - assignments, `if`, `for` over known
+    sequences, `return`, item stores and list/dict methods on values created in the call.  Anything else makes the result unknown."""
+    node = func.node
+    a = node.args
+    if getattr(self, "_depth", 0) > 6 or node.decorator_list or a.posonlyargs:
+        return TOP
+    import copy as _copy
+    pos = [x.arg for x in a.args]
+    env = {}
+    args = []
+    for x in call.args:
+        if isinstance(x, ast.Starred):
+            v = self.eval(x.value)
+            if v is TOP:
+                return TOP
+            args.extend(list(v))
+        else:
+            v = self.eval(x)
+            if v is TOP:
+                return TOP
+            args.append(v)
+    if len(args) > len(pos) and a.vararg is None:
+        return TOP
+    for nm, v in zip(pos, args):
+        env[nm] = v
+    if a.vararg is not None:
+        env[a.vararg.arg] = tuple(args[len(pos):])
+    for k in call.keywords:
+        if k.arg is None:
+            return TOP
+        v = self.eval(k.value)
+        if v is TOP or k.arg in env or k.arg not in pos + [x.arg for x in a.kwonlyargs]:
+            return TOP
+        env[k.arg] = v
+    dflt = func.defaults()
+    for nm in pos + [x.arg for x in a.kwonlyargs]:
+        if nm not in env:
+            if nm not in dflt:
+                return TOP
+            v = Evaluator(self.program, func.module).eval(dflt[nm])
+            if v is TOP:
+                return TOP
+            env[nm] = _copy.deepcopy(v)
+    if a.kwarg is not None:
+        return TOP
+    sub = Evaluator(self.program, func.module, None, env)
+    sub._depth = getattr(self, "_depth", 0) + 1
+    steps = [0]
+
+    def ev(e):
+        v = sub.eval(e)
+        if v is TOP:
+            raise _Unknown()
+        return v
+
+    def run(stmts):
+        for st in stmts:
+            steps[0] += 1
+            if steps[0] > 2000:
+                raise _Unknown()
+            if isinstance(st, ast.Expr) and isinstance(st.value, ast.Constant):
+                continue
+            if isinstance(st, ast.Pass):
+                continue
+            if isinstance(st, (ast.Assign, ast.AnnAssign)):
+                if getattr(st, "value", None) is None:
+                    continue
+                v = ev(st.value)
+                for t in (st.targets if isinstance(st, ast.Assign) else [st.target]):
+                    store(t, v)
+                continue
+            if isinstance(st, ast.AugAssign) and isinstance(st.target, ast.Name) and isinstance(st.op, ast.Add):
+                env[st.target.id] = ev(ast.BinOp(left=ast.Name(id=st.target.id, ctx=ast.Load()), op=ast.Add(), right=st.value))
+                continue
+            if isinstance(st, ast.If):
+                run(st.body if ev(st.test) else st.orelse)
+                continue
+            if isinstance(st, ast.For) and isinstance(st.target, (ast.Name, ast.Tuple)) and not st.orelse:
+                for item in list(ev(st.iter)):
+                    store(st.target, item)
+                    run(st.body)
+                continue
+            if isinstance(st, ast.Return):
+                raise _Return(ev(st.value) if st.value is not None else None)
+            if isinstance(st, ast.Expr) and isinstance(st.value, ast.Call) and isinstance(st.value.func, ast.Attribute) \
+                    and isinstance(st.value.func.value, ast.Name) and st.value.func.value.id in env and not st.value.keywords \
+                    and st.value.func.attr in ("append", "extend", "update", "setdefault", "insert"):
+                recv = env[st.value.func.value.id]
+                argv = [ev(x) for x in st.value.args]
+                if isinstance(recv, (list, dict)):
+                    getattr(recv, st.value.func.attr)(*argv)
+                    continue
+            raise _Unknown()
+
+    def store(t, v):
+        if isinstance(t, ast.Name):
+            env[t.id] = v
+        elif isinstance(t, ast.Tuple) and all(isinstance(x, ast.Name) for x in t.elts):
+            v = list(v)
+            if len(v) != len(t.elts):
+                raise _Unknown()
+            for x, y in zip(t.elts, v):
+                env[x.id] = y
+        elif isinstance(t, ast.Subscript) and isinstance(t.value, ast.Name) and t.value.id in env and isinstance(env[t.value.id], (dict, list)) \
+                and t.value.id not in pos:
+            env[t.value.id][ev(t.slice)] = v
+        else:
+            raise _Unknown()
+    try:
+        run(node.body)
+    except _Return as r:
+        return r.value
+    except _Unknown:
+        return TOP
+    except Exception:
+        return TOP
+    return None
+
+
+Evaluator._call_builder = _call_builder
 
 
 def class_value(program, c, name):
